@@ -454,6 +454,55 @@ m("m-c04-lossy-palette-index", {"C04": "C04|panic-site|"},
             Some(self.0[index])""")], "rgb_from_index(16) indexes out of bounds")
 
 
+# ---- alternatives for mutants that the repository's own suite kills (these survive the suite) --------------------
+m("m-c01-keep-dcs-whitespace", {"C01": "C01|keep|"},
+  [(A + "adapter/strip.rs", "|| (action == Action::Execute && byte.is_ascii_whitespace())",
+    "|| ((action == Action::Execute || action == Action::Put) && byte.is_ascii_whitespace())")], "whitespace inside a DCS string is kept")
+m("m-c01-keep-c1-ind", {"C01": "C01|keep|", "C04": "C04|utf8|"},
+  [(A + "adapter/strip.rs", "|| (action == Action::Execute && byte.is_ascii_whitespace())",
+    "|| (action == Action::Execute && (byte.is_ascii_whitespace() || byte == 0x84))")], "C1 IND (0x84, also a continuation byte) is kept")
+m("m-c02-oscstart-keeps-count", {"C02": "C02|reset|"},
+  [(P + "lib.rs", """                self.osc_raw.clear();
+                self.osc_num_params = 0;""", """                self.osc_raw.clear();""")], "second OSC on the same parser starts with stale parameter count")
+m("m-c02-esc-ignore-false", {"C02": "C02|action-map|"},
+  [(P + "lib.rs", "performer.esc_dispatch(self.intermediates(), self.ignoring, byte);", "performer.esc_dispatch(self.intermediates(), false, byte);")])
+m("m-c04-range-pattern-90-98", {"C07": "C07|codes|", "C04": "C04|panic-site|"},
+  [(A + "adapter/wincon.rs", "(State::Normal, 90..=97) => {", "(State::Normal, 90..=98) => {")], "to_ansi_color(8).expect panics for ESC[98m")
+m("m-c07-underline-4-4-dashed", {"C07": "C07|codes|"},
+  [(A + "adapter/wincon.rs", """                    (State::Underline, 4) => {
+                        style = style
+                            .effects(style.get_effects().remove(anstyle::Effects::UNDERLINE))
+                            | anstyle::Effects::DOTTED_UNDERLINE;""", """                    (State::Underline, 4) => {
+                        style = style
+                            .effects(style.get_effects().remove(anstyle::Effects::UNDERLINE))
+                            | anstyle::Effects::DASHED_UNDERLINE;""")])
+m("m-c07-58-targets-bg", {"C07": "C07|codes|"},
+  [(A + "adapter/wincon.rs", """                    (State::Normal, 58) => {
+                        color_target = ColorTarget::Underline;""", """                    (State::Normal, 58) => {
+                        color_target = ColorTarget::Bg;""")])
+m("m-c13-contains-any", {"C13": "C13|bitwise|"},
+  [(S + "effect.rs", "(other.0 & self.0) == other.0", "(other.0 & self.0) != 0 || other.0 == 0")], "contains() of a multi-effect set holds if ANY member is present")
+m("m-c13-blink-inserts-invert", {"C13": "C13|wiring|"},
+  [(S + "style.rs", "self.effects = self.effects.insert(crate::Effects::BLINK);", "self.effects = self.effects.insert(crate::Effects::INVERT);")])
+m("m-c13-into-ansi-5-6-swapped", {"C13": "C13|colour-tables|"},
+  [(S + "color.rs", "5 => Some(AnsiColor::Magenta),\n            6 => Some(AnsiColor::Cyan),", "5 => Some(AnsiColor::Cyan),\n            6 => Some(AnsiColor::Magenta),")])
+m("m-c15-rgb-request-before-defcolor", {"C15": "C15|colours|"},
+  [("crates/anstyle-roff/src/lib.rs", """            doc.control(
+                control_requests::CREATE_COLOR,
+                vec![name.as_str(), "rgb", to_hex(c).as_str()],
+            )
+            .control(control_request, vec![name.as_str()]);""", """            doc.control(control_request, vec![name.as_str()]).control(
+                control_requests::CREATE_COLOR,
+                vec![name.as_str(), "rgb", to_hex(c).as_str()],
+            );""")], "colour used before it is defined (RGB path, never produced by cansi today)")
+m("m-c14-hidden-class-typo", {"C14": "C14|classes|"},
+  [("crates/anstyle-svg/src/lib.rs", """    if hidden {
+        classes.push("hidden");""", """    if hidden {
+        classes.push("hide");""")], "span class without a sheet rule")
+m("m-c10-xterm_to_ansi-row15", {"C10": "C10|tables|"},
+  [("crates/anstyle-lossy/src/lib.rs", "15 => anstyle::AnsiColor::BrightWhite,", "15 => anstyle::AnsiColor::White,")])
+
+
 def main():
     os.makedirs(OUT, exist_ok=True)
     index_path = os.path.join(OUT, "index.json")
